@@ -114,7 +114,7 @@ def lexicon_rich(p, lid='L', ver='1', style='1.1', tag=''):
             else:
                 lex['frames'][1]['id'] = t + 'fr2'
                 s2['subcat'] = [t + 'fr2']
-            s1['subcat'] = [t + 'fr1']
+            s1['subcat'] = [t + 'fr1'] + ([t + 'fr2'] if p.has(t + 'frame_id2') else [])
             e2['senses'][0]['subcat'] = [t + 'fr1']
     else:
         if p.has(t + 'frames'):
